@@ -92,7 +92,7 @@ def certificate(site, rec, M, M0inv, gamma, tr, viol, converged, stats):
     stats['states_judged_for_identity' if well else 'states_ill_conditioned_not_judged'] += 1
     if well:
         stats['worst_identity_residual'] = max(stats['worst_identity_residual'], res)
-    if well and res > 1e-8:
+    if well and not res <= 1e-8:
         viol.append(V(site, 'dual_identity', 'M^-1 - M0^-1 differs from sum_i y_i lambda_i v_i v_i^T by %.3g relative' % res, tr, residual=res))
     xi0 = np.asarray(rec['bounds'], dtype=float)
     with np.errstate(divide='ignore'):
@@ -221,7 +221,7 @@ def run_case(spec):
                         dev = np.abs(M - Aref).max() / max(np.abs(Aref).max(), 1e-300)
                         stats['worst_vs_certified_optimum'] = max(stats.get('worst_vs_certified_optimum', 0.0), dev / 1e-6)
                         stats['converged_states_compared_with_certified_optimum'] = stats.get('converged_states_compared_with_certified_optimum', 0) + 1
-                        if dev > 1e-6:
+                        if not dev <= 1e-6:
                             viol.append(V(site, 'not_the_optimum', 'converged run (n_iter_ = %d): M differs from the KKT-certified optimum of the documented '
                                           'program by %.3g relative' % (est.n_iter_, dev), tr + ['converged']))
                     else:
